@@ -15,8 +15,8 @@ spec/mech/ColoringJudge.tla (judges colorings exported from the real code).
 (c) generated models: colored vs uncolored compute_totals (ScipyOptimizeDriver.declare_coloring, modes fwd/rev/auto,
     direct/substitution, with and without driver scaling) and colored vs uncolored FD/CS partials
     (Component.declare_coloring)."""
+import collections
 import json
-import os
 import random
 
 from ..tlc import MachineryError
@@ -240,9 +240,9 @@ def _pattern_worker(items):
     return res
 
 
-def tlc_case(rec):
-    return {'nr': rec['nr'], 'nc': rec['nc'], 'P': [[r + 1, c + 1] for r, c in rec['cells']], 'mode': rec['mode'],
-            'direct': rec['direct'], 'K': rec['K'], 'fs': rec['fs'], 'rs': rec['rs']}
+def tlc_case(rec, modes):
+    return {'nr': rec['nr'], 'nc': rec['nc'], 'P': [[r + 1, c + 1] for r, c in rec['cells']], 'modes': modes,
+            'K': rec['K'], 'fs': rec['fs'], 'rs': rec['rs']}
 
 
 def judge(ctx, cases, tag):
@@ -259,20 +259,28 @@ def judge(ctx, cases, tag):
 
 
 def self_check(ctx):
-    cfg = ctx.write_cfg('Coloring_selfcheck.cfg', '''CONSTANTS
-  SCR = 2
-  SCC = 2
-  SCLen = 2
+    """Coloring.tla on itself: all patterns of a small shape x all candidate colorings (laws + non-vacuity of Valid)"""
+    bounds = [(2, 2, 2)] if ctx.tier == 'quick' else [(2, 2, 3), (2, 3, 2), (3, 2, 2)]
+    out = {}
+    for nr, nc, ln in bounds:
+        cfg = ctx.write_cfg('Coloring_selfcheck_%d%d%d.cfg' % (nr, nc, ln), '''CONSTANTS
+  SCR = %d
+  SCC = %d
+  SCLen = %d
 INIT Init
 NEXT Next
 INVARIANT ValidIsStructural
 INVARIANT ValidCovers
 INVARIANT FwdLowerBound
-''')
-    ctx.tlc_check('mech/Coloring', cfg, workers=WORKERS, timeout=1500, heap='6g')
-    ctx.require_actions(['Pick', 'SeenValid', 'SeenInvalid'])
-    return {'candidates': ctx.coverage_actions.get('Pick', 0), 'valid': ctx.coverage_actions.get('SeenValid', 0),
-            'invalid': ctx.coverage_actions.get('SeenInvalid', 0)}
+''' % (nr, nc, ln))
+        r = ctx.tlc_check('mech/Coloring', cfg, workers=WORKERS, timeout=3000, heap='8g')
+        cov = {k: v[1] for k, v in r.coverage().items()}
+        ctx.require_actions(['Pick', 'SeenValid', 'SeenInvalid'])
+        if not (cov.get('SeenValid', 0) > 0 and cov.get('SeenInvalid', 0) > 0):
+            raise MachineryError('self-check of Coloring.tla is vacuous: %s' % cov)
+        out['%dx%d_upto%dcolors' % (nr, nc, ln)] = {'candidates': cov.get('Pick', 0), 'valid': cov.get('SeenValid', 0),
+                                                     'invalid': cov.get('SeenInvalid', 0)}
+    return out
 
 
 # ------------------------------------------------------------------------------------------- (c) generated models
@@ -523,6 +531,11 @@ def _model_worker(specs):
     return out
 
 
+def _task_worker(task):
+    kind, chunk = task
+    return _model_worker(chunk) if kind == 'model' else _pattern_worker(chunk)
+
+
 # ------------------------------------------------------------------------------------------- findings
 def _is_subs_after_scaling(scenario, info):
     """colored totals differ from uncolored ones exactly when subtraction steps exist and driver scaling is applied:
@@ -536,9 +549,26 @@ def _replay(ctx):
     with open(ctx.replay) as f:
         rec = json.load(f)
     sc = rec['scenario']
+    ctx.register_predicates({KNOWN_SUBS_SCALING: _is_subs_after_scaling})
     if sc.get('kind', 'pattern') != 'pattern':
-        raise MachineryError('replay is supported for pattern scenarios (model scenarios carry their full data in the '
-                             'replay file: model spec, both Jacobians)')
+        quiet()
+        spec = sc['spec']
+        spec['cells'] = [tuple(x) for x in spec['cells']]
+        if spec.get('bcells'):
+            spec['bcells'] = [tuple(x) for x in spec['bcells']]
+        trow = run_totals_model(spec) if sc['kind'] == 'model-totals' else []
+        prow = run_partials_model(spec) if sc['kind'] == 'model-partials' else []
+        cnt = _process_models(ctx, [spec], [[(spec['id'], trow, prow)]], only=sc)
+        # TLC judges the coloring of the component's own pattern for the same mode and method (for a model without the
+        # second component this is the total Jacobian's pattern): tells a wrong coloring from a wrong use of a right one
+        mode, direct = (sc['mode'], sc['direct']) if sc['kind'] == 'model-totals' else ('fwd', True)
+        recs = [r for r in run_pattern(spec['nr'], spec['nc'], spec['cells'], 0)
+                if r['mode'] == mode and r['direct'] == direct]
+        _judge_records(ctx, recs, 'replay', [0] * len(recs))
+        ctx.impl = cnt['tot'] + cnt['par']
+        ctx.rule = 'replay of one stored model scenario (colored vs uncolored on the real code)'
+        ctx.sample({'replayed': ctx.replay, 'comparisons': ctx.impl, 'violations': len(ctx.violations)})
+        return
     quiet()
     recs = run_pattern(sc['nr'], sc['nc'], [tuple(x) for x in sc['cells']], sc.get('alt', 0))
     recs = [r for r in recs if r['mode'] == sc['mode'] and r['direct'] == sc['direct']]
@@ -554,13 +584,22 @@ def _scenario(rec, alt):
 
 def _judge_records(ctx, recs, tag, alts, batch=40000):
     """TLC verdicts for all records that produced a coloring; reports violations; returns verdict list (None = error)"""
-    idx = [i for i, r in enumerate(recs) if 'K' in r]
+    # records of the same pattern with the same coloring (mode auto falling back to fwd or rev) share one TLC case
+    groups = collections.OrderedDict()
+    for i, r in enumerate(recs):
+        if 'K' in r:
+            key = (r['nr'], r['nc'], json.dumps(r['cells']), json.dumps(r['K'], sort_keys=True))
+            groups.setdefault(key, []).append(i)
+    glist = list(groups.values())
     verdicts = [None] * len(recs)
-    for b in range(0, len(idx), batch):
-        part = idx[b:b + batch]
-        vs = judge(ctx, [tlc_case(recs[i]) for i in part], '%s_%d' % (tag, b // batch))
-        for i, v in zip(part, vs):
-            verdicts[i] = v
+    for b in range(0, len(glist), batch):
+        part = glist[b:b + batch]
+        vs = judge(ctx, [tlc_case(recs[g[0]], [recs[i]['mode'] for i in g]) for g in part], '%s_%d' % (tag, b // batch))
+        for g, v in zip(part, vs):
+            for j, i in enumerate(g):
+                verdicts[i] = {'wf': v['wf'], 'valid': v['valid'], 'solves': v['solves'], 'needsubs': v['needsubs'],
+                               'partition': v['partition'][j], 'noworse': v['noworse'][j], 'fallback': v['fallback'][j]}
+    ctx.extra['tlc_cases'] = ctx.extra.get('tlc_cases', 0) + len(glist)
     snippet = ('import numpy as np; from openmdao.utils.coloring import _compute_coloring; P = np.zeros((nr, nc), bool); '
                'P[tuple(zip(*cells))] = True; c = _compute_coloring(P, mode, direct=direct); print(c._fwd, c._rev, '
                'c._subtractions)   # ./check C03 --replay <this file>')
@@ -597,10 +636,72 @@ def _judge_records(ctx, recs, tag, alts, batch=40000):
     return verdicts
 
 
+def _process_models(ctx, specs, mres, only=None):
+    """compare the rows of the model workers, report violations; only: replay filter on scenario fields"""
+    n_tot = n_tot_col = n_tot_subs = n_par = n_par_col = 0
+    skipped = []
+    by_id = {s['id']: s for s in specs}
+
+    def wanted(sc):
+        return only is None or all(sc.get(k) == only.get(k) for k in ('kind', 'mode', 'direct', 'driver_scaling', 'method')
+                                   if k in only)
+    for chunk in mres:
+        for mid, trow, prow in chunk:
+            spec = by_id[mid]
+            for row in trow:
+                if 'skip' in row:
+                    skipped.append(row['skip'])
+                    continue
+                sc = {k: row.get(k) for k in ('kind', 'model', 'mode', 'direct', 'driver_scaling', 'subs',
+                                              'bidirectional', 'solves')}
+                sc['spec'] = spec
+                if not wanted(sc):
+                    continue
+                if 'raised' in row:
+                    ctx.violation(sc, 'colored compute_totals returns', row['raised'],
+                                  'colored compute_totals raised where the uncolored one did not')
+                    continue
+                n_tot += 1
+                n_tot_col += bool(row['colored'])
+                n_tot_subs += bool(row['subs'])
+                if row['colored'] and row['solves'] < row['uncolored_solves']:
+                    ctx.note_nontrivial(('totals', mid, row['mode'], row['direct'], row['driver_scaling']))
+                if not row['err'] <= 1e-9:
+                    ctx.violation(sc, row['J_uncolored'], row['J_colored'],
+                                  'colored total derivatives differ from uncolored ones (max rel. diff %.3g)' % row['err'],
+                                  snippet='openmdao: ScipyOptimizeDriver.declare_coloring(direct=%s); setup(mode=%r); '
+                                          'compute_totals(driver_scaling=%s) vs the same without declare_coloring; '
+                                          './check C03 --replay <this file>'
+                                          % (row['direct'], row['mode'], row['driver_scaling']))
+            for row in prow:
+                sc = {'kind': 'model-partials', 'model': mid, 'method': row['method'], 'spec': spec}
+                if not wanted(sc):
+                    continue
+                if 'raised' in row:
+                    ctx.violation(sc, 'colored approximation runs', row['raised'],
+                                  'partial-derivative coloring raised')
+                    continue
+                n_par += 1
+                n_par_col += bool(row['colored'])
+                if row['colored'] and row['solves'] < row['uncolored_solves']:
+                    ctx.note_nontrivial(('partials', mid, row['method']))
+                if not row['colored']:
+                    raise MachineryError('declare_coloring on the component produced no coloring (model %d)' % mid)
+                if not row['err_exact'] <= 1e-9:
+                    raise MachineryError('uncolored %s partials are not the exact quotient (model %d, err %g)'
+                                         % (row['method'], mid, row['err_exact']))
+                if not row['err'] <= 1e-9:
+                    ctx.violation(sc, row['J_uncolored'], row['J_colored'],
+                                  'colored %s partial derivatives differ from uncolored ones' % row['method'])
+    return {'tot': n_tot, 'tot_col': n_tot_col, 'tot_subs': n_tot_subs, 'par': n_par, 'par_col': n_par_col,
+            'skipped': skipped}
+
+
 def run(ctx):
     if getattr(ctx, 'replay', None):
         return _replay(ctx)
     quick = ctx.tier == 'quick'
+    quiet()     # import OpenMDAO once, before the pools fork (eight concurrent imports cost a minute on a busy machine)
     ctx.register_predicates({KNOWN_SUBS_SCALING: _is_subs_after_scaling})
 
     # (0) self-check of the specification
@@ -609,21 +710,23 @@ def run(ctx):
     # (a)+(b) real colorings of every pattern
     items, n_exh = gen_patterns(ctx.tier, ctx.seed)
     indexed = list(enumerate(items))
-    res = pmap(_pattern_worker, split(indexed, NPROC * 8), nproc=NPROC)
+    rnd = random.Random(7919 * ctx.seed + 11)
+    specs = _model_specs(rnd, 14 if quick else 40)
+    # one pool for both kinds of work; the (slower) model chunks go first
+    tasks = [('model', ch) for ch in split(specs, NPROC * 2) if ch] + \
+            [('pattern', ch) for ch in split(indexed, NPROC * 8) if ch]
+    out = pmap(_task_worker, tasks, nproc=NPROC)
+    mres = [o for (kind, _), o in zip(tasks, out) if kind == 'model']
     by_k = {}
-    for chunk in res:
-        for k, recs in chunk:
-            by_k[k] = recs
+    for (kind, _), chunk in zip(tasks, out):
+        if kind == 'pattern':
+            for k, rs in chunk:
+                by_k[k] = rs
     recs, alts = [], []
     for k in range(len(items)):
         for r in by_k[k]:
             recs.append(r)
             alts.append(k)
-
-    # (c) generated models
-    rnd = random.Random(7919 * ctx.seed + 11)
-    specs = _model_specs(rnd, 14 if quick else 40)
-    mres = pmap(_model_worker, split(specs, NPROC * 2), nproc=NPROC)
 
     verdicts = _judge_records(ctx, recs, 'cases', alts)
 
@@ -654,52 +757,10 @@ def run(ctx):
             break
 
     # ---- (c) model results
-    n_tot = n_tot_col = n_tot_subs = n_par = n_par_col = 0
-    skipped = []
+    cnt = _process_models(ctx, specs, mres)
+    n_tot, n_tot_col, n_tot_subs, n_par, n_par_col, skipped = (cnt[k] for k in ('tot', 'tot_col', 'tot_subs', 'par',
+                                                                                'par_col', 'skipped'))
     by_id = {s['id']: s for s in specs}
-    for chunk in mres:
-        for mid, trow, prow in chunk:
-            spec = by_id[mid]
-            for row in trow:
-                if 'skip' in row:
-                    skipped.append(row['skip'])
-                    continue
-                sc = {k: row.get(k) for k in ('kind', 'model', 'mode', 'direct', 'driver_scaling', 'subs',
-                                              'bidirectional', 'solves')}
-                sc['spec'] = spec
-                if 'raised' in row:
-                    ctx.violation(sc, 'colored compute_totals returns', row['raised'],
-                                  'colored compute_totals raised where the uncolored one did not')
-                    continue
-                n_tot += 1
-                n_tot_col += bool(row['colored'])
-                n_tot_subs += bool(row['subs'])
-                if row['colored'] and row['solves'] < row['uncolored_solves']:
-                    ctx.note_nontrivial(('totals', mid, row['mode'], row['direct'], row['driver_scaling']))
-                if not row['err'] <= 1e-9:
-                    ctx.violation(sc, row['J_uncolored'], row['J_colored'],
-                                  'colored total derivatives differ from uncolored ones (max rel. diff %.3g)' % row['err'],
-                                  snippet='openmdao: ScipyOptimizeDriver.declare_coloring(direct=%s); setup(mode=%r); '
-                                          'compute_totals(driver_scaling=%s) vs the same without declare_coloring'
-                                          % (row['direct'], row['mode'], row['driver_scaling']))
-            for row in prow:
-                sc = {'kind': 'model-partials', 'model': mid, 'method': row['method'], 'spec': spec}
-                if 'raised' in row:
-                    ctx.violation(sc, 'colored approximation runs', row['raised'],
-                                  'partial-derivative coloring raised')
-                    continue
-                n_par += 1
-                n_par_col += bool(row['colored'])
-                if row['colored'] and row['solves'] < row['uncolored_solves']:
-                    ctx.note_nontrivial(('partials', mid, row['method']))
-                if not row['colored']:
-                    raise MachineryError('declare_coloring on the component produced no coloring (model %d)' % mid)
-                if not row['err_exact'] <= 1e-9:
-                    raise MachineryError('uncolored %s partials are not the exact quotient (model %d, err %g)'
-                                         % (row['method'], mid, row['err_exact']))
-                if not row['err'] <= 1e-9:
-                    ctx.violation(sc, row['J_uncolored'], row['J_colored'],
-                                  'colored %s partial derivatives differ from uncolored ones' % row['method'])
     if n_tot == 0 or n_tot_col == 0 or n_par_col == 0:
         raise MachineryError('model part is vacuous: %d total comparisons, %d colored, %d colored partials; skipped %s'
                              % (n_tot, n_tot_col, n_par_col, skipped[:3]))
@@ -719,7 +780,7 @@ def run(ctx):
         'patterns': len(items), 'patterns_exhaustive': n_exh, 'colorings_judged_by_tlc': n_col,
         'colorings_better_than_uncolored': n_better, 'bidirectional': int(n_bidir), 'auto_fell_back': int(n_fallback),
         'with_subtractions': n_subs, 'subtractions_needed': n_needsubs, 'single_direction_expand_checks': n_expand,
-        'selfcheck_2x2': sc_res['ok'],
+        'spec_selfcheck': sc_res['ok'],
         'model_total_comparisons': n_tot, 'model_totals_colored': n_tot_col, 'model_totals_with_subtractions': n_tot_subs,
         'model_partial_comparisons': n_par, 'models': len(specs), 'model_skips': len(skipped)})
     ctx.rule = ('every boolean sparsity pattern of shapes %s (%d patterns, exhaustive) plus %d seeded random/structured '
